@@ -27,6 +27,27 @@ func fxPkg(op []byte, body ...[]byte) []byte {
 	return fxCat(op, c11PkgLenEnc(len(bb), 0), bb)
 }
 
+func fxPkgEnc(op []byte, enc int, body ...[]byte) []byte {
+	bb := fxCat(body...)
+	return fxCat(op, c11PkgLenEnc(len(bb), enc), bb)
+}
+
+// fxBigMethod is Method(MAA1,0){<pad Noops> Return(One)} Name(NAA0,1) with the method's length in the given encoding.
+func fxBigMethod(pad, enc int) []byte {
+	noops := make([]byte, pad)
+	for i := range noops {
+		noops[i] = byte(pOpNoop)
+	}
+	return fxCat(fxPkgEnc([]byte{byte(pOpMethod)}, enc, fxNS("", "MAA1"), []byte{0}, noops, []byte{byte(pOpReturn), byte(pOpOne)}), fxName(fxNS("", "NAA0"), fxOne...))
+}
+
+func fxBigMethodCheck(tree *ObjectTree) string {
+	if s := fxWant("\\MAA1", "\\NAA0")(tree); s != "" {
+		return s
+	}
+	return fxOperands("\\MAA1", pOpReturn, 1)(tree)
+}
+
 func fxNS(prefix string, segs ...string) []byte { return c11NameString(prefix, segs...) }
 
 func fxName(name []byte, data ...byte) []byte { return fxCat([]byte{byte(pOpName)}, name, data) }
@@ -255,6 +276,11 @@ func c11FixedCases() []fxCase {
 				}
 				return ""
 			}},
+
+		{id: "R2-pkglen-3-bytes-70000", what: "a method of 70 000 bytes (3-byte package length, all three bytes in use) followed by a Name", tables: [][]byte{fxBigMethod(70000, 3)}, check: fxBigMethodCheck},
+		{id: "R3-pkglen-4-bytes-5000", what: "a method of 5 000 bytes written with the 4-byte package length (second length byte in use)", tables: [][]byte{fxBigMethod(5000, 4)}, check: fxBigMethodCheck},
+		{id: "R4-pkglen-4-bytes-70000", what: "a method of 70 000 bytes written with the 4-byte package length (third length byte in use)", tables: [][]byte{fxBigMethod(70000, 4)}, check: fxBigMethodCheck},
+		{id: "R5-pkglen-4-bytes-1100000", what: "a method of 1 100 000 bytes (4-byte package length, all four bytes in use) followed by a Name", tables: [][]byte{fxBigMethod(1100000, 4)}, check: fxBigMethodCheck},
 
 		// ---- open findings (expected to fail with the recorded observation) ----
 		{id: "K1a-scope-below-device", what: "Scope(\\_SB_.DAA0.DAA1){Name(NAA0,1)}: a path with a segment below a Device never resolves",
